@@ -29,8 +29,8 @@ def model(ctx):
 def run(ctx):
     q = ctx.quick()
     model(ctx)
-    gs = [2, 8, 64] if q else [2, 4, 8, 16, 32, 64]
-    per = 1500 if q else 4000
+    gs = [2, 8, 64] if q else [2, 4, 8, 16, 32, 64, 128]
+    per = 1500 if q else 8000
     mps = [0] if q else [0, 2]
     scen = []
     for mp in mps:
